@@ -48,7 +48,7 @@ def gen_calls(ctx, rng, j):
         sl = make_slice(rng, j)
         if sl is None:
             break
-        variant = rng.choice(['identical', 'renamed', 'renamed', 'reexpressed', 'entangled', 'entangled', 'incomplete'])
+        variant = rng.choice(['identical', 'renamed', 'renamed', 'reexpressed', 'entangled', 'entangled', 'incomplete', 'clash'])
         sub, im, om = sub_from_slice(j, sl, variant, rng)
         calls.append([['replace_subcircuit', sub, im, om]])
     sl = dead_loop_slice(j)
